@@ -283,6 +283,8 @@ const KINDS: &[(&str, usize)] = &[
     ("ident-to-undefined", 2),
     ("remove-closer", 3),
     ("inject-unicode", 3),
+    ("unicode-at-start", 1),
+    ("bom-at-start", 1),
     ("type-swap", 3),
     ("number-mangle", 1),
     // declared semantic errors the front end is expected to catch
@@ -419,6 +421,9 @@ fn corrupt(kind: &str, src: &str, r: &mut Rng, tag: &str) -> Option<String> {
             let p = *r.pick(&bounds);
             Some(splice(src, p, p, *r.pick(UNI)))
         }
+        // offset 0: byte order marks and other characters an editor may put first
+        "unicode-at-start" => Some(format!("{}{src}", r.pick(UNI))),
+        "bom-at-start" => Some(format!("{}{src}", '\u{feff}')),
         "type-swap" => {
             let swaps: &[(&str, &[&str])] = &[
                 ("f32", &["u32", "i32", "bool"]),
@@ -807,11 +812,13 @@ fn main() {
             Real::Panic(m) => Some(m),
             _ => None,
         };
-        for k in 0..per_case {
+        // two fixed variants per base case on top of the random ones: a BOM and another character at offset 0
+        let fixed: &[&str] = if only.is_none() { &["bom-at-start", "unicode-at-start"] } else { &[] };
+        for k in 0..per_case + fixed.len() {
             let mut r = Rng(seed.wrapping_mul(0x9E3779B97F4A7C15) ^ (ci as u64).wrapping_mul(0xD1B54A32D192ED03) ^ (k as u64).wrapping_mul(0x8CB92BA72F3D8DD7));
             r.next();
             // pick a kind that applies to this source
-            let mut kind = *r.pick(&wheel);
+            let mut kind = if k >= per_case { fixed[k - per_case] } else { *r.pick(&wheel) };
             let mut corrupted = None;
             for _ in 0..20 {
                 corrupted = corrupt(kind, src, &mut r, &k.to_string());
